@@ -19,8 +19,8 @@ const (
 	replyPong
 	replyCloseEcho
 	replyCloseEmpty
-	replyCloseProto        // 1002
-	replyCloseProtoOrUTF8  // 1002 or 1007
+	replyCloseProto       // 1002
+	replyCloseProtoOrUTF8 // 1002 or 1007
 )
 
 type ctrlExp struct {
